@@ -25,8 +25,12 @@ HARNESSES = [
     H("c55_char_to_string_unquoted_ascii", 30, "printable ASCII passes through", "32..126"),
     H("c55_requires_space_sufficient", 60, "whenever two adjacent tokens would fuse, a space is "
       "requested", "all ASCII (last, first) char pairs"),
-    H("c55_needs_bracketing_sufficient", 120, "operand priority above the argument bound => "
-      "brackets", "priorities 0..1200, all 7x7 specifiers, parent '-' or '+'"),
+    H("c55_needs_bracketing_plus", 120, "operand priority above the argument bound => brackets; "
+      "strictly lower priority => none", "priorities 0..1200, all 7x7 specifiers, parent '+'",
+      timeout=1500),
+    H("c55_needs_bracketing_minus", 120, "same for a parent '-' (prefix minus over an infix/"
+      "postfix operand is always bracketed)", "priorities 0..1200, all 7x7 specifiers",
+      timeout=1500),
 ]
 ENCODED = ["heap_print::non_quoted_token", "non_quoted_graphic_token", "char_to_string",
            "requires_space", "needs_bracketing", "char-class macros (small_letter_char, "
